@@ -100,6 +100,13 @@ func genC05(r *rand.Rand, run int, tier string) *vm.Plan {
 			}
 		}
 		b.Facts = dedupFacts(b.Facts)
+		if r.Intn(8) == 0 && len(b.Facts) > 0 {
+			// two rules with the same head and body atoms that differ only in an expression
+			if nr := g.NearDuplicateRules(b.Facts); len(nr) == 2 {
+				b.Rules = append(b.Rules, nr...)
+				qs = append(qs, ref.Rule{Head: nr[0].Head, Body: []ref.Pred{nr[0].Head}})
+			}
+		}
 		for i := 1 + r.Intn(3); i > 0; i-- {
 			if r.Intn(2) == 0 {
 				qs = append(qs, g.Rule())
